@@ -139,7 +139,63 @@ def _apply(conf, cfgmod, holders, op, trace):
   trace.append(res + '/' + _observe(conf, cfgmod, holders))
 
 
+def _run_snapshot(case):
+  """the snapshot stored in the metadata of every run of a Test agrees with the other views AT THAT RUN: histories of
+  load / reset / flag-free declared keys with executions of one Test object in between"""
+  import openhtf as htf
+  from openhtf.util import configuration as cfgmod, console_output
+  logging.disable(logging.CRITICAL)
+  console_output.banner_print = lambda *a, **k: None
+  console_output.error_print = lambda *a, **k: None
+  conf = cfgmod.CONF
+  for key, default in (('c20_port', 1), ('c20_gain', None)):
+    try:
+      if default is None:
+        conf.declare(key, 'verif probe')
+      else:
+        conf.declare(key, 'verif probe', default_value=default)
+    except Exception:  # pylint: disable=broad-except
+      pass
+  saved = dict(conf._loaded_values)
+  facts = []
+  recs = []
+
+  def phase(test):
+    pass
+  tests = [htf.Test(phase), htf.Test(phase)]
+  for t in tests:
+    t.add_output_callbacks(recs.append)
+  try:
+    for op in case['ops']:
+      if op[0] == 'load':
+        conf.load(**{op[1]: op[2], '_override': True})
+      elif op[0] == 'reset':
+        conf._loaded_values.pop('c20_port', None)
+        conf._loaded_values.pop('c20_gain', None)
+      else:
+        del recs[:]
+        tests[op[1]].execute()
+        snap = recs[0].metadata.get('config') if recs else None
+        if not isinstance(snap, dict):
+          facts.append('X:no-configuration-snapshot-in-the-record')
+          continue
+        for key in ('c20_port', 'c20_gain'):
+          try:
+            want = ('v', conf[key])
+          except cfgmod.UnsetKeyError:
+            want = ('unset',)
+          got = ('v', snap[key]) if key in snap else ('unset',)
+          if got != want:
+            facts.append('X:metadata-snapshot-disagrees-with-item-access:' + key)
+  finally:
+    conf._loaded_values.clear()
+    conf._loaded_values.update(saved)
+  return ['T'] + sorted(set(facts))
+
+
 def run_real(case):
+  if case.get('kind') == 'T':
+    return _run_snapshot(case)
   from openhtf.util import configuration as cfgmod
   logging.getLogger('openhtf.util.configuration').disabled = True
   conf = cfgmod._Configuration()
@@ -179,14 +235,20 @@ def _enc_op(op):
 
 
 def encode(case, obs):
+  if case.get('kind') == 'T':
+    return 'C20 ' + ' '.join(obs)
   return 'C20 %d %s # %s' % (len(case['ops']), ' '.join(_enc_op(o) for o in case['ops']), ' '.join(obs))
 
 
 def classify(case, obs):
+  if case.get('kind') == 'T':
+    return 'metadata-snapshot'
   return 'len%d/%s' % (len(case['ops']), ''.join(sorted(set(o[0] for o in case['ops']))))
 
 
 def nontrivial_key(case, obs):
+  if case.get('kind') == 'T':
+    return repr(case['ops'])
   if any(':v' in e for e in obs):
     return encode(case, [])
   return None
@@ -242,6 +304,19 @@ def gen_cases(rng, tier):
   nrand = 3000 if tier == 'quick' else 30000
   for _ in range(nrand):
     cases.append({'ops': [_rand_op(rng) for _ in range(rng.randint(1, 8))]})
+  for i in range(40 if tier == 'quick' else 600):
+    r = rng.derive('t%d' % i)
+    ops = []
+    for _ in range(r.choice([3, 4, 6])):
+      x = r.random()
+      if x < 0.4:
+        ops.append(['load', r.choice(['c20_port', 'c20_gain']), r.choice([2, 3, 'x'])])
+      elif x < 0.5:
+        ops.append(['reset'])
+      else:
+        ops.append(['execute', r.randrange(2)])
+    ops.append(['execute', 0])
+    cases.append({'kind': 'T', 'ops': ops})
   return cases
 
 
